@@ -134,3 +134,50 @@ Proof.
     rewrite (run_tol_ok q _ _ _ [] Hs).
     rewrite run_done, !pre_pre, pre_done. rewrite ?map_app. cbn [map fst snd ok app]. rewrite <- ?app_assoc. reflexivity.
 Qed.
+
+(* ------------------------------------------------------------------ C01: build, then read back *)
+Theorem build_read : forall q p v ops,
+  Scripts q p v ops -> exists n, run q p ops = Some n /\ abs n = v /\ wf n.
+Proof.
+  intros q p v ops H. destruct (ascript_run q p v (map ok ops) H) as (n & Hr & Hn & Hw).
+  exists n. split; auto. unfold run.
+  rewrite !map_map in Hr. simpl in Hr. rewrite map_id in Hr.
+  rewrite (run_tol_steps q ops (init p) (SDone p n)); auto.
+Qed.
+
+(* the size hint has no functional effect *)
+Theorem hint_irrelevant : forall q s h h',
+  step q s (BeginMap h) = step q s (BeginMap h') /\ step q s (BeginList h) = step q s (BeginList h').
+Proof.
+  intros q s h h'. destruct s as [[|[p|t m [| |k|k]|x []] r]|p n]; simpl; auto;
+    destruct p; simpl; auto.
+Qed.
+
+(* the pinned Prototype.Map builder cannot take a non-empty map of another implementation *)
+Lemma pmap_foreign_refuted :
+  exists n, wf n /\ Scripts repaired PMap (abs n) [AssignNode n] /\ run pinned PMap [AssignNode n] = None.
+Proof.
+  exists (NFMap [([97], NInt 1)]). split; [|split].
+  - constructor; [constructor; [simpl; tauto|constructor]|repeat constructor].
+  - apply (AP_map_node repaired [] (NFMap [([97], NInt 1)])); [constructor| |left; reflexivity].
+    constructor; [constructor; [simpl; tauto|constructor]|repeat constructor].
+  - reflexivity.
+Qed.
+
+Example legal_script :
+  Scripts pinned PAny (DMap [([97], DInt 1); ([98], DList [DNull; DString [120]])])
+    [BeginMap 2; AssembleEntry [97]; AssignInt 1; AssembleKey; AssignString [98]; AssembleValue;
+     BeginList (-1); AssembleValue; AssignNull; AssembleValue; AssignNode (NString [120]); Finish; Finish].
+Proof.
+  apply AP_any. simpl map. apply AS_map.
+  apply (MB_entry AScript [] [97] (DInt 1) _ [ok (AssignInt 1)]); [simpl; tauto|constructor|].
+  apply (MB_key AScript [[97]] [98] (DList [DNull; DString [120]]) [] [] (AssignString [98])
+           [ok (BeginList (-1)); ok AssembleValue; ok AssignNull; ok AssembleValue; ok (AssignNode (NString [120])); ok Finish]).
+  - simpl. intros [H|H]; [discriminate|auto].
+  - constructor.
+  - constructor.
+  - apply AS_list. apply (LB_value AScript DNull _ [ok AssignNull]); [constructor|].
+    apply (LB_value AScript (DString [120]) _ [ok (AssignNode (NString [120]))]); [|constructor].
+    apply (AS_node (NString [120])). constructor.
+  - constructor.
+Qed.
